@@ -449,6 +449,15 @@ macro_rules! angle_systems {
                                 let m = Sh::atan2(Sh::exact(a.f()), Sh::exact(b.f()));
                                 chk(ctx, "atan2", A::<T>::atan2(a, b).0, m, -1.0, 1.0);
                             }
+                            // atan2 depends on the direction of (b, a) only: both arguments short, both long (a guard on
+                            // the length of the pair sees neither in the pairs above, where one argument is 1 or 1/2)
+                            for k in if T::NAME == "F" { vec![-30i32, -20, -13, -7, 9, 20, 30] } else { vec![-200i32, -60, -40, -27, -14, 14, 40, 200] } {
+                                let f: T = num_traits::cast::<f64, T>(2f64.powi(k)).unwrap();
+                                for (a, b) in [(x * f, h * f), (h * f, -x * f)] {
+                                    let m = Sh::atan2(Sh::exact(a.f()), Sh::exact(b.f()));
+                                    chk(ctx, "atan2/scaled", A::<T>::atan2(a, b).0, m, -1.0, 1.0);
+                                }
+                            }
                         }
                     },
                 );
